@@ -726,10 +726,19 @@ func (v *Verifier) axiomsFor(r *Run, terms []*Term, extra []*Term) []*Term {
 			c := newSigCollector()
 			c.walk(t)
 			syms := map[string]bool{}
+			own := map[string]bool{}
 			for n := range c.ufs {
 				if strings.HasPrefix(n, "spec!") || strings.HasPrefix(n, "pure!") {
 					syms[n] = true
+					if strings.HasPrefix(n, "spec!"+cs.Label+".") || strings.HasPrefix(n, "pure!"+cs.Label+".") {
+						own[n] = true
+					}
 				}
+			}
+			// an axiom is about the symbols of its own package: it is relevant when one of THOSE occurs in the query
+			// (an axiom defining compiler.rep in terms of ddptypes.tnorm says nothing to a query without rep)
+			if len(own) > 0 {
+				syms = own
 			}
 			cands = append(cands, &cand{t: t, syms: syms})
 		}
